@@ -38,7 +38,7 @@ func init() {
 	core.Register(&core.Rule{
 		ID:    "R05.8",
 		Title: "context keys are pairwise distinct",
-		Text: "For every named type of the module whose values are used as keys of context.WithValue / Context.Value, the package-level constants of that type have pairwise different values: two keys with one value " +
+		Text: "For every named type of the module whose values are used as keys of context.WithValue / Context.Value, the package-level constants of that type that are passed as keys have pairwise different values: two keys with one value " +
 			"make a context-adding filter (ExtraRequestHeaders, AddResponseHeadersCaptor) shadow the routed method or resource path with a value of another type.",
 		Props: []string{"C05", "C02"},
 		Floor: map[string]int{"v2": 1, "root": 1},
@@ -103,6 +103,7 @@ func runR058(c *core.Ctx) {
 		inf := p.TypesInfo
 		rel := c.M.Rel(p.PkgPath)
 		keyTypes := map[*types.TypeName]bool{}
+		usedAsKey := map[types.Object]bool{}
 		for _, fd := range c.M.FuncDecls(rel) {
 			if fd.Body == nil {
 				continue
@@ -121,6 +122,9 @@ func runR058(c *core.Ctx) {
 				}
 				if nn := namedOf(inf.Types[key].Type); nn != nil && nn.Obj().Pkg() == p.Types {
 					keyTypes[nn.Obj()] = true
+					if k, ok := core.ObjOf(inf, key).(*types.Const); ok {
+						usedAsKey[k] = true
+					}
 				}
 			}
 		}
@@ -134,8 +138,8 @@ func runR058(c *core.Ctx) {
 			scope := p.Types.Scope()
 			for _, name := range scope.Names() {
 				k, ok := scope.Lookup(name).(*types.Const)
-				if !ok || !types.Identical(k.Type(), tn.Type()) {
-					continue
+				if !ok || !types.Identical(k.Type(), tn.Type()) || !usedAsKey[k] {
+					continue // a marker constant (`firstServerKey`) that is never a key itself cannot shadow anything
 				}
 				v := k.Val().ExactString()
 				byVal[v] = append(byVal[v], core.NameOf(k))
@@ -293,6 +297,12 @@ func runR0810(c *core.Ctx) {
 								}
 								if len(r.Results) == 1 && alwaysFails(c, inf, r.Results[0]) {
 									continue
+								}
+								// a package-level error variable (a sentinel) is an error of its own
+								if len(r.Results) > 0 {
+									if sv, ok := core.ObjOf(inf, r.Results[len(r.Results)-1]).(*types.Var); ok && sv.Pkg() != nil && sv.Parent() == sv.Pkg().Scope() && core.IsErrorType(sv.Type()) {
+										continue
+									}
 								}
 								lost[r.Pos()] = v.Name()
 							}
@@ -601,18 +611,35 @@ func runR1612(c *core.Ctx) {
 			n++
 			okConv, why := false, "the operand is not the result of a parse bounded to the target width"
 			arg := core.Unparen(call.Args[0])
-			if o := core.ObjOf(inf, arg); o != nil && len(defs[o]) == 1 && defs[o][0] != nil {
-				if pc, ok := core.Unparen(defs[o][0]).(*ast.CallExpr); ok {
-					if pf := core.Callee(inf, pc); pf != nil && (core.IsFunc(pf, "strconv", "ParseInt") || core.IsFunc(pf, "strconv", "ParseUint")) && len(pc.Args) == 3 {
-						if cv := core.ConstOf(inf, pc.Args[2]); cv != nil {
-							if bs, exact := constant.Int64Val(cv); exact && bs > 0 && int(bs) <= to {
-								okConv = true
-							} else {
-								why = fmt.Sprintf("the value was parsed with bitSize %s, wider than the %d-bit target", cv.ExactString(), to)
+			if o := core.ObjOf(inf, arg); o != nil && len(defs[o]) >= 1 {
+				// every definition of the operand is a bounded parse or a constant (the zero returned next to an error)
+				all, parses := true, 0
+				for _, d := range defs[o] {
+					if d == nil {
+						all = false
+						continue
+					}
+					if tv, ok := inf.Types[d]; ok && tv.Value != nil {
+						continue
+					}
+					bounded := false
+					if pc, ok := core.Unparen(d).(*ast.CallExpr); ok {
+						if pf := core.Callee(inf, pc); pf != nil && (core.IsFunc(pf, "strconv", "ParseInt") || core.IsFunc(pf, "strconv", "ParseUint")) && len(pc.Args) == 3 {
+							if cv := core.ConstOf(inf, pc.Args[2]); cv != nil {
+								if bs, exact := constant.Int64Val(cv); exact && bs > 0 && int(bs) <= to {
+									bounded = true
+									parses++
+								} else {
+									why = fmt.Sprintf("the value was parsed with bitSize %s, wider than the %d-bit target", cv.ExactString(), to)
+								}
 							}
 						}
 					}
+					if !bounded {
+						all = false
+					}
 				}
+				okConv = all && parses > 0
 			}
 			if !okConv {
 				// an explicit upper bound on the operand: `if c > 0xff { return … }` before, or `c <= 0xff` around, the conversion
@@ -1092,6 +1119,37 @@ func adoptedHeaderMaps(inf *types.Info, body ast.Node) []ast.Node {
 				}
 			}
 			if !fresh {
+				// a local that only ever holds maps made on the spot
+				if id, ok := core.Unparen(as.Rhs[i]).(*ast.Ident); ok {
+					if v, ok := core.ObjOf(inf, id).(*types.Var); ok && !v.IsField() {
+						defs, allFresh := 0, true
+						ast.Inspect(body, func(y ast.Node) bool {
+							if as2, ok := y.(*ast.AssignStmt); ok && len(as2.Lhs) == len(as2.Rhs) {
+								for k, l2 := range as2.Lhs {
+									if core.ObjOf(inf, l2) != v {
+										continue
+									}
+									defs++
+									switch r2 := core.Unparen(as2.Rhs[k]).(type) {
+									case *ast.CompositeLit:
+									case *ast.CallExpr:
+										id2, isId := core.Unparen(r2.Fun).(*ast.Ident)
+										cf2 := core.Callee(inf, r2)
+										if !(isId && id2.Name == "make") && !(cf2 != nil && cf2.Name() == "Clone") {
+											allFresh = false
+										}
+									default:
+										allFresh = false
+									}
+								}
+							}
+							return true
+						})
+						fresh = defs > 0 && allFresh
+					}
+				}
+			}
+			if !fresh {
 				out = append(out, as)
 			}
 		}
@@ -1167,11 +1225,10 @@ func returnsOwnMap(inf *types.Info, fd *ast.FuncDecl) (bool, string) {
 						isFresh = true
 					}
 				}
-				if isFresh && as.Tok == token.DEFINE {
-					fresh[o] = true
+				if isFresh && o != nil {
+					fresh[o] = true // `m := make(…)` and `var m T; m = make(…)` alike; any other assignment disqualifies it below
 				} else if o != nil {
-					delete(fresh, o)
-					if !isFresh {
+					if _, isMap := o.Type().Underlying().(*types.Map); isMap && !core.IsNil(inf, r) {
 						escaped[o] = "is assigned " + core.ExprString(r)
 					}
 				}
@@ -1337,6 +1394,14 @@ func runR059(c *core.Ctx) {
 		if o := core.ObjOf(inf, e); o != nil && fresh[o] {
 			if _, isField := core.Unparen(e).(*ast.SelectorExpr); !isField {
 				return true
+			}
+		}
+		// the address of a variable declared in this body (`var c rootNode; …; return &c`) is new on every call
+		if u, ok := e.(*ast.UnaryExpr); ok && u.Op == token.AND {
+			if id, ok := core.Unparen(u.X).(*ast.Ident); ok {
+				if v, ok := core.ObjOf(inf, id).(*types.Var); ok && !v.IsField() && v.Pos() > fd.Body.Pos() && v.Pos() < fd.Body.End() {
+					return true
+				}
 			}
 		}
 		bad = append(bad, c.M.Position(r.Pos())+": "+core.ExprString(e))
